@@ -125,13 +125,16 @@ def undefined_externals(objs):
 HIST_WRAPS = ["malloc", "free", "calloc", "realloc", "strndup", "strdup", "abort", "__assert_fail"]
 
 
-def build_hist(backend, extra=False):
+FLAG_DEFS = ["-DRFC6531_FOLLOW_RFC5322", "-DRFC6531_FOLLOW_RFC20", "-DLABELS_ALLOW_UNDERSCORE"]
+
+
+def build_hist(backend, extra=False, flags=False):
     """history simulator for one backend -> path of executable"""
-    name = "hist-%s%s" % (backend, "-extra" if extra else "")
+    name = "hist-%s%s%s" % (backend, "-extra" if extra else "", "-flags" if flags else "")
     d = os.path.join(BUILD, name)
     if os.path.isdir(d):
         shutil.rmtree(d)
-    defs = ["-DEAV_EXTRA"] if extra else []
+    defs = (["-DEAV_EXTRA"] if extra else []) + (FLAG_DEFS if flags else [])
     objs = compile_lib(d, backend, ASAN, defs)
     ext = undefined_externals(objs)
     inc = ["-I" + os.path.join(REPO, "include"), "-I" + REPO] + BACKEND_DEFS[backend] + defs
